@@ -103,6 +103,7 @@ def harnesses(tier):
     hs = [to_operator_harness(), precedence_harness(), operator_helper_harness(), operator_recursion_harness(tier), equation_harness()] + [operator_node_harness(k) for k in (1, 2, 3)]
     for k in C09.KINDS:
         h = C09.node_harness(k); h.name = 'S4.' + h.name[2:]; hs.append(h)
+    rf = C09.ranged_for_harness(); rf.name = 'S4.Ranged_For'; hs.append(rf)
     e = C07.equation_harness(); e.name = 'S4.Equation'; hs.append(e)
     for h in C08.harnesses(tier):
         if h.name.startswith('R2'): h.name = 'S4.Inline_Array'; hs.append(h)
